@@ -14,7 +14,7 @@ TreesInit ==
     /\ \A k \in 1..n : size[k] = 0 \/ Align(size[k], al[k]) >= bl[k]
     /\ forest = [k \in 1..n |-> [NewNode(k, off[k], size[k], al[k], [i \in 1..bl[k] |-> DataByte(k, i - 1)], PatOf(k)) EXCEPT !.par = par[k]]]
     /\ act = [a |-> "Tree", size |-> size]
-TreesNext == UNCHANGED vars
+TreesNext == FALSE /\ UNCHANGED vars
 \* one line per tree: for every image  <<parent, offset, explicit size, alignment, binary length>>
 Emit == PrintT(ToJson([k \in DOMAIN forest |-> <<forest[k].par, forest[k].off, act.size[k], forest[k].al, Len(forest[k].bin)>>]))
 =============================================================================
